@@ -247,6 +247,24 @@ func runGen(raw json.RawMessage, seed int64, rec *Rec) {
 		}
 		fd.Service = append(fd.Service, sd)
 	}
+	// leading comments of every shape (one line, several lines, paragraphs, odd characters) on services and methods:
+	// whatever the comments are, the output is valid Go with the same routing facts
+	comments := []string{" One line.\n", " First line.\n Second line.\n", " First paragraph.\n\n Second paragraph, with */ and // and \"quotes\".\n",
+		"", " Trailing blank line.\n\n"}
+	sci := &descriptorpb.SourceCodeInfo{}
+	for si, sv := range s.Services {
+		sci.Location = append(sci.Location, &descriptorpb.SourceCodeInfo_Location{
+			Path: []int32{6, int32(si)}, Span: []int32{int32(10 * si), 0, 1},
+			LeadingComments: proto.String(comments[(si+1)%len(comments)])})
+		for mi := range sv.Methods {
+			if c := comments[(s.Tid+mi)%len(comments)]; c != "" {
+				sci.Location = append(sci.Location, &descriptorpb.SourceCodeInfo_Location{
+					Path: []int32{6, int32(si), 2, int32(mi)}, Span: []int32{int32(10*si + mi + 1), 2, 3},
+					LeadingComments: proto.String(c)})
+			}
+		}
+	}
+	fd.SourceCodeInfo = sci
 	req := &pluginpb.CodeGeneratorRequest{FileToGenerate: []string{"t/test.proto"},
 		ProtoFile: []*descriptorpb.FileDescriptorProto{empty, fd}}
 	resp, stderr, err := runPlugin(req)
